@@ -508,6 +508,235 @@ fn find_idf(e: &Value) -> Option<f32> {
     None
 }
 
+
+// ------------------------------------------------------------------------------------------------
+// (C) several text fields with very different length distributions; conjunctions of Must term clauses
+//     across fields (TopDocs -> block_wand_intersection; for_each / explain -> Intersection)
+
+struct MfBuilt { fields: Vec<Field>, searcher: Searcher, seg_docs: Vec<Vec<(usize, bool)>> }
+
+fn build_index_mf(docs: &[Vec<Vec<usize>>], nf: usize, cuts: &[usize], deleted: &[bool]) -> Result<MfBuilt, String> {
+    let mut sb = Schema::builder();
+    let fields: Vec<Field> = (0..nf).map(|f| sb.add_text_field(&format!("f{}", f), TEXT)).collect();
+    let idf = sb.add_u64_field("id", FAST | INDEXED | STORED);
+    let index = Index::create_in_ram(sb.build());
+    let mut w: IndexWriter = index.writer_with_num_threads(1, 50_000_000).map_err(|e| e.to_string())?;
+    w.set_merge_policy(Box::new(NoMergePolicy));
+    let mut start = 0;
+    for cut in cuts.iter().cloned().chain(std::iter::once(docs.len())) {
+        if cut <= start { continue; }
+        for i in start..cut {
+            let mut d = TantivyDocument::new();
+            for f in 0..nf { d.add_text(fields[f], &docs[i][f].iter().map(|t| term_text(*t)).collect::<Vec<_>>().join(" ")); }
+            d.add_u64(idf, i as u64);
+            w.add_document(d).map_err(|e| e.to_string())?;
+        }
+        w.commit().map_err(|e| e.to_string())?;
+        start = cut;
+    }
+    if deleted.iter().any(|d| *d) {
+        for (i, del) in deleted.iter().enumerate() { if *del { w.delete_term(Term::from_field_u64(idf, i as u64)); } }
+        w.commit().map_err(|e| e.to_string())?;
+    }
+    w.wait_merging_threads().map_err(|e| e.to_string())?;
+    let searcher = index.reader().map_err(|e| e.to_string())?.searcher();
+    let mut seg_docs = vec![];
+    for sr in searcher.segment_readers() {
+        let col = sr.fast_fields().u64("id").map_err(|e| e.to_string())?;
+        seg_docs.push((0..sr.max_doc()).map(|d| (col.first(d).unwrap_or(u64::MAX) as usize, !sr.is_deleted(d))).collect());
+    }
+    Ok(MfBuilt { fields, searcher, seg_docs })
+}
+
+fn multi_field(rng: &mut Rng, out: &mut CaseOut, thorough: bool, table: &[u32], seed: u64) {
+    let n_corpora = if thorough { 50 } else { 9 };
+    let mut coq_budget: i64 = if thorough { 500 } else { 110 };
+    let profiles: [(u64, u64); 3] = [(1, 8), (10, 900), (3, 70)];   // title-like, body-like, tag-like lengths
+    for ci in 0..n_corpora {
+        let nf = rng.range(2, 3) as usize;
+        let n_docs = match ci % 3 { 0 => rng.range(8, 60), 1 => rng.range(150, 400), _ => rng.range(400, 700) } as usize;
+        let n_terms = rng.range(3, 6) as usize;
+        let docs: Vec<Vec<Vec<usize>>> = (0..n_docs).map(|_| (0..nf).map(|f| {
+            let (lo, hi) = profiles[f];
+            let len = if rng.chance(1, 3) { let id = rng.range(0, 110) as usize; (table[id] as u64 + rng.range(0, 1)).clamp(lo, hi) } else { rng.range(lo, hi) } as usize;
+            // term t of field f has its own frequency profile: rare in one field, common in another
+            (0..len).map(|_| { let r = rng.below((n_terms * n_terms) as u64) as usize; let t = (r as f64).sqrt() as usize % n_terms; (t + f) % n_terms }).collect()
+        }).collect()).collect();
+        let n_seg = rng.range(1, 3).min(n_docs as u64) as usize;
+        let mut cuts: Vec<usize> = (0..n_seg - 1).map(|_| rng.range(1, n_docs as u64 - 1) as usize).collect();
+        cuts.sort(); cuts.dedup();
+        let with_deletes = ci % 4 == 1;
+        let mut deleted = vec![false; n_docs];
+        if with_deletes {
+            for i in 0..n_docs { deleted[i] = rng.chance(1, 5); }
+            let mut start = 0;
+            for cut in cuts.iter().cloned().chain(std::iter::once(n_docs)) { if cut > start { if (start..cut).all(|i| deleted[i]) { deleted[start] = false; } start = cut; } }
+        }
+        let b = match guarded(|| build_index_mf(&docs, nf, &cuts, &deleted)) {
+            Ok(Ok(b)) => b,
+            other => { out.spec_checked(false, json!({"what": "multi-field index build failed", "err": format!("{:?}", other.err().map(|_| ()))})); continue; }
+        };
+        out.count("mf_corpora", 1);
+        let searcher = &b.searcher;
+        let phys: Vec<usize> = b.seg_docs.iter().flatten().map(|(i, _)| *i).collect();
+        let total_docs = phys.len() as u64;
+        out.spec_checked(searcher.total_num_docs().ok() == Some(total_docs), json!({"what": "multi-field: total_num_docs != physical documents"}));
+        // per-field statistics
+        let mut tokens = vec![0u64; nf];
+        let mut df: BTreeMap<(usize, usize), u64> = BTreeMap::new();
+        let mut idf: BTreeMap<(usize, usize), f32> = BTreeMap::new();
+        let addr_of: BTreeMap<usize, DocAddress> = b.seg_docs.iter().enumerate().flat_map(|(o, seg)| seg.iter().enumerate().map(move |(d, (i, _))| (*i, DocAddress::new(o as u32, d as u32)))).collect();
+        for f in 0..nf {
+            tokens[f] = phys.iter().map(|i| docs[*i][f].len() as u64).sum();
+            let impl_t = Bm25StatisticsProvider::total_num_tokens(searcher, b.fields[f]).unwrap_or(u64::MAX);
+            out.spec_checked(impl_t == tokens[f], json!({"what": "multi-field: total_num_tokens(field) != sum of that field's lengths", "field": f, "impl": impl_t, "corpus": tokens[f]}));
+            for t in 0..n_terms {
+                let n = phys.iter().filter(|i| docs[**i][f].contains(&t)).count() as u64;
+                let term = Term::from_field_text(b.fields[f], &term_text(t));
+                out.spec_checked(searcher.doc_freq(&term).ok() == Some(n), json!({"what": "multi-field: doc_freq(field, term) != corpus", "field": f, "term": t, "corpus": n}));
+                df.insert((f, t), n);
+                if let Some(i) = phys.iter().find(|i| docs[**i][f].contains(&t)) {
+                    let tq = TermQuery::new(term, IndexRecordOption::WithFreqs);
+                    if let Ok(Ok(e)) = guarded(|| tq.explain(searcher, addr_of[i])) {
+                        let ej: Value = serde_json::from_str(&e.to_pretty_json()).unwrap();
+                        if let Some(v) = find_idf(&ej) {
+                            let x = ((total_docs - n) as f32 + 0.5) / (n as f32 + 0.5);
+                            let want = ((1.0f32 + x) as f64).ln() as f32;
+                            out.spec_checked(ulps(v, want) <= 1, json!({"what": "multi-field: idf differs from ln(1 + (N-n+0.5)/(n+0.5)) by more than 1 ulp", "field": f, "term": t, "impl": v, "f64": want}));
+                            idf.insert((f, t), v);
+                        }
+                    }
+                }
+            }
+        }
+        // queries: conjunctions of Must term clauses, mostly on different fields, in random order
+        let n_queries = if thorough { 10 } else { 8 };
+        for qi in 0..n_queries {
+            let k = rng.range(2, 3).min(if qi % 4 == 3 { 3 } else { nf as u64 + 1 }) as usize;
+            let mut fs: Vec<usize> = (0..nf).collect();
+            rng.shuffle(&mut fs);
+            let clauses: Vec<(usize, usize)> = (0..k).map(|j| (fs[j % nf], rng.below(n_terms as u64) as usize)).collect();
+            if clauses.iter().any(|c| !idf.contains_key(c)) { continue; }
+            let with_should = qi % 5 == 4;
+            let should: Option<(usize, usize)> = if with_should { Some((rng.below(nf as u64) as usize, rng.below(n_terms as u64) as usize)) } else { None };
+            if let Some(c) = should { if !idf.contains_key(&c) { continue; } }
+            let mk = |c: &(usize, usize)| -> Box<dyn Query> { Box::new(TermQuery::new(Term::from_field_text(b.fields[c.0], &term_text(c.1)), IndexRecordOption::WithFreqs)) };
+            let mut sub: Vec<(Occur, Box<dyn Query>)> = clauses.iter().map(|c| (Occur::Must, mk(c))).collect();
+            if let Some(c) = &should { sub.push((Occur::Should, mk(c))); }
+            let tq = BooleanQuery::new(sub);
+            let show = format!("bool[{}{}]", clauses.iter().map(|(f, t)| format!("+f{}:{}", f, term_text(*t))).collect::<Vec<_>>().join(" "), should.map(|(f, t)| format!(" f{}:{}", f, term_text(t))).unwrap_or_default());
+            let ks = [n_docs + 5, 1, 3, 10];
+            let r = guarded(|| -> tantivy::Result<_> {
+                let mut tops = vec![];
+                for k in ks { tops.push(searcher.search(&tq, &TopDocs::with_limit(k).order_by_score())?); }
+                Ok((tops, searcher.search(&tq, &AllScores)?))
+            });
+            let (tops, all) = match r { Ok(Ok(x)) => x, other => { out.spec_checked(false, json!({"what": "multi-field search failed or panicked", "query": show, "err": format!("{:?}", other.err())})); continue; } };
+            out.count("mf_queries", 1);
+            if clauses.iter().map(|c| c.0).collect::<std::collections::BTreeSet<_>>().len() >= 2 { out.count("mf_queries_across_fields", 1); }
+            // is the first clause NOT the rarest term (the situation where the intersection reorders its scorers)?
+            if clauses.iter().skip(1).any(|c| df[c] < df[&clauses[0]]) { out.count("mf_queries_first_clause_not_rarest", 1); }
+            let all_map: BTreeMap<(u32, u32), f32> = all.iter().map(|(a, s)| ((a.segment_ord, a.doc_id), *s)).collect();
+            let top_maps: Vec<BTreeMap<(u32, u32), f32>> = tops.iter().map(|t| t.iter().map(|(s, a)| ((a.segment_ord, a.doc_id), *s)).collect()).collect();
+            let n_leaves = clauses.len() + should.iter().count();
+            let tol = 2 * (n_leaves as i64 + 1);
+            let mut canon: Vec<(usize, usize, usize, bool)> = b.seg_docs.iter().enumerate().flat_map(|(o, seg)| seg.iter().enumerate().map(move |(d, (i, alive))| (*i, o, d, *alive))).collect();
+            canon.sort();
+            let mut n_match = 0;
+            for (i, o, d, alive) in canon {
+                if !alive { continue; }
+                let key = (o as u32, d as u32);
+                // independent evaluation, clause by clause, each with ITS field's length, average and statistics
+                let clause_score = |c: &(usize, usize)| -> Option<(f32, u32, usize)> {
+                    let toks = &docs[i][c.0];
+                    let tf = tf_of(toks, c.1);
+                    if tf == 0 { return None; }
+                    let avg = tokens[c.0] as f32 / total_docs as f32;
+                    let dl = table[fieldnorm_to_id(table, toks.len() as u32) as usize];
+                    let norm = K1 * (1.0 - B + B * dl as f32 / avg);
+                    let f = tf as f32;
+                    Some(((idf[c] * (1.0 + K1)) * (f / (f + norm)), tf, toks.len()))
+                };
+                let musts: Vec<Option<(f32, u32, usize)>> = clauses.iter().map(|c| clause_score(c)).collect();
+                let desc = json!({"query": show, "doc": i, "addr": [o, d], "field_lens": docs[i].iter().map(|t| t.len()).collect::<Vec<_>>(), "N": total_docs, "T": tokens, "segments": b.seg_docs.len(), "deletes": with_deletes, "seed": seed, "mf_corpus": ci});
+                if musts.iter().any(|m| m.is_none()) {
+                    out.spec_checked(!all_map.contains_key(&key) && top_maps.iter().all(|m| !m.contains_key(&key)), json!({"what": "multi-field: a non-matching document was scored", "case": desc}));
+                    continue;
+                }
+                n_match += 1;
+                out.count("mf_matching_docs", 1);
+                let mut parts: Vec<((usize, usize), f32, u32, usize)> = clauses.iter().zip(musts.iter()).map(|(c, m)| { let m = m.unwrap(); (*c, m.0, m.1, m.2) }).collect();
+                if let Some(c) = &should { if let Some(m) = clause_score(c) { parts.push((*c, m.0, m.1, m.2)); } }
+                let want = parts.iter().fold(0.0f32, |a, p| a + p.1);
+                let want64: f64 = parts.iter().map(|p| {
+                    let (c, tf, len) = (p.0, p.2 as f64, p.3);
+                    let dl = table[fieldnorm_to_id(table, len as u32) as usize] as f64;
+                    idf[&c] as f64 * 2.2 * tf / (tf + 1.2 * (0.25 + 0.75 * dl / (tokens[c.0] as f64 / total_docs as f64)))
+                }).sum();
+                let Some(&s_all) = all_map.get(&key) else { out.spec_checked(false, json!({"what": "multi-field: matching document missing from the scoring collector", "case": desc})); continue; };
+                out.spec_checked(ulps(want, s_all) <= tol, json!({"what": "multi-field: score differs from the sum of the clauses' BM25 scores, each over its own field", "impl": s_all, "want": want, "case": desc}));
+                out.spec_checked(((s_all as f64) - want64).abs() <= 1e-5 * want64.abs() * (1.0 + n_leaves as f64), json!({"what": "multi-field: score differs from the exact formula", "impl": s_all, "formula": want64, "case": desc}));
+                // every K of TopDocs against the scoring collector
+                for (ki, m) in top_maps.iter().enumerate() {
+                    match m.get(&key) {
+                        Some(&s_top) => {
+                            out.spec_checked(ulps(s_top, s_all) <= tol, json!({"what": "multi-field: TopDocs and the scoring collector differ by more than the rounding of the sum", "k": ks[ki], "topdocs": s_top, "collector": s_all, "want": want, "case": desc}));
+                            out.count("mf_topdocs_scores_compared", 1);
+                        }
+                        None if ki == 0 => out.spec_checked(false, json!({"what": "multi-field: matching document missing from TopDocs(K >= number of documents)", "case": desc})),
+                        None => {}
+                    }
+                }
+                // explain: value, one detail per matching clause, each detail the clause's own score with its field's dl / avgdl
+                let addr = DocAddress::new(o as u32, d as u32);
+                let (e_val, ej) = match guarded(|| tq.explain(searcher, addr)) {
+                    Ok(Ok(e)) => (e.value(), serde_json::from_str::<Value>(&e.to_pretty_json()).unwrap_or(Value::Null)),
+                    other => { out.spec_checked(false, json!({"what": "multi-field: explain failed on a matching document", "err": format!("{:?}", other.map(|r| r.map(|_| ()))), "case": desc})); continue; }
+                };
+                out.spec_checked(ulps(e_val, s_all) <= tol, json!({"what": "multi-field: explain value differs from the score", "explain": e_val, "score": s_all, "case": desc}));
+                let ds = jdetails(&ej);
+                let mut bad: Vec<String> = vec![];
+                if ds.len() != parts.len() { bad.push(format!("{} details for {} matching clauses", ds.len(), parts.len())); } else {
+                    for (p, dnode) in parts.iter().zip(ds.iter()) {
+                        if jf(dnode).to_bits() != p.1.to_bits() { bad.push(format!("clause f{}:{} explained as {} but its BM25 score over its own field is {}", p.0 .0, term_text(p.0 .1), jf(dnode), p.1)); }
+                        let nd = jdetails(dnode);
+                        if nd.len() == 3 {
+                            let td = jdetails(nd[2]);
+                            if td.len() == 5 {
+                                let dl = table[fieldnorm_to_id(table, p.3 as u32) as usize] as f32;
+                                if jf(td[0]).to_bits() != (p.2 as f32).to_bits() { bad.push("freq".into()); }
+                                if jf(td[3]).to_bits() != dl.to_bits() { bad.push(format!("dl {} vs the field's quantised length {}", jf(td[3]), dl)); }
+                                if jf(td[4]).to_bits() != (tokens[p.0 .0] as f32 / total_docs as f32).to_bits() { bad.push(format!("avgdl {} vs the field's average", jf(td[4]))); }
+                            } else { bad.push("tf node shape".into()); }
+                        } else { bad.push("term node shape".into()); }
+                    }
+                    let sum = ds.iter().fold(0.0f32, |a, x| a + jf(x));
+                    if ulps(sum, e_val) > tol { bad.push(format!("bool node {} != sum of details {}", e_val, sum)); }
+                }
+                out.spec_checked(bad.is_empty(), json!({"what": "multi-field: explanation does not show each clause over its own field's statistics", "broken": bad, "case": desc}));
+                // Coq: each clause against the Flocq model with its field's (sum of tokens, N, length); the sums within n ulps
+                if coq_budget > 0 && ds.len() == parts.len() && rng.chance(1, if n_docs > 100 { 25 } else { 3 }) {
+                    coq_budget -= 1;
+                    let mut conj: Vec<String> = vec![];
+                    for (p, dnode) in parts.iter().zip(ds.iter()) {
+                        conj.push(format!("score_bits_agree {} {} (FLeaf [{}] (Some (fieldnorm_to_id {}, {}))) (Some {})", tokens[p.0 .0], total_docs, z(idf[&p.0].to_bits()), p.3, p.2, z(jf(dnode).to_bits())));
+                    }
+                    let sum_term = format!("(to_bits (fsum [{}]))", ds.iter().map(|x| format!("of_bits {}", z(jf(x).to_bits()))).collect::<Vec<_>>().join(";"));
+                    conj.push(format!("within_ulps {} {} {}", tol, sum_term, z(s_all.to_bits())));
+                    conj.push(format!("within_ulps {} {} {}", tol, sum_term, z(e_val.to_bits())));
+                    for m in top_maps.iter() { if let Some(s_top) = m.get(&key) { conj.push(format!("within_ulps {} {} {}", tol, sum_term, z(s_top.to_bits()))); } }
+                    out.coq_case("tie", conj.join(" && "), json!({"what": "multi-field conjunction: every clause vs Flocq over its own field; collector, explain and every TopDocs K within the rounding of the sum", "score": s_all, "case": desc}), b.seg_docs.len() >= 2 || nf >= 2);
+                    let p = &parts[0];
+                    out.coq_case("spec", format!("formula_close {} {} {} {} {} {} {}", total_docs, tokens[p.0 .0], z(idf[&p.0].to_bits()), p.3, p.2, z(1.0f32.to_bits()), z(jf(ds[0]).to_bits())),
+                                 json!({"what": "multi-field: first clause vs the exact-rational formula over its own field", "case": desc}), true);
+                }
+            }
+            out.spec_checked(all.len() == n_match, json!({"what": "multi-field: the scoring collector saw a different number of documents than match", "collector": all.len(), "matching": n_match, "query": show}));
+            if n_match > 0 { out.count("mf_queries_with_matches", 1); }
+        }
+    }
+}
+
 // ------------------------------------------------------------------------------------------------
 
 fn main() {
@@ -583,16 +812,23 @@ fn main() {
     let n_queries = if thorough { 14 } else { 9 };
     let mut coq_b: i64 = if thorough { 2200 } else { 520 };
     let mut coq_stats: i64 = if thorough { 200 } else { 50 };
+    let mut coq_huge: i64 = if thorough { 300 } else { 90 };
     let (mut coq_f40, mut coq_f41): (i64, i64) = if thorough { (150, 150) } else { (40, 40) };
     for ci in 0..n_corpora {
         let big = ci % 8 == 7;
-        let n_docs: usize = if big { rng.range(200, 700) as usize } else { (match ci % 4 { 0 => rng.range(1, 6), 1 => rng.range(5, 25), _ => rng.range(10, 60) }) as usize };
+        // one segment of ~9000 small documents: matches spread over every 4096-doc window of the union scorers
+        let huge = ci == 2 || (thorough && ci % 40 == 22);
+        let n_docs: usize = if huge { 9000 + rng.range(0, 600) as usize } else if big { rng.range(200, 700) as usize } else { (match ci % 4 { 0 => rng.range(1, 6), 1 => rng.range(5, 25), _ => rng.range(10, 60) }) as usize };
         let max_len = if big { 40 } else if thorough && ci % 16 == 3 { 140_000 } else if ci % 5 == 2 { 9000 } else { 700 };
-        let corpus = gen_corpus(&mut rng, &table, n_docs, max_len);
-        let n_seg = rng.range(1, 6).min(n_docs as u64) as usize;
-        let mut cuts: Vec<usize> = (0..n_seg - 1).map(|_| rng.range(1, n_docs as u64 - 1).max(1) as usize).collect();
+        let corpus = if huge {
+            let mut hr = rng.fork();
+            Corpus { n_terms: 4, docs: (0..n_docs).map(|_| { let l = hr.range(1, 5) as usize; (0..l).map(|_| hr.below(4) as usize).collect() }).collect() }
+        } else { gen_corpus(&mut rng, &table, n_docs, max_len) };
+        let n_seg = if huge { rng.range(1, 2) as usize } else { rng.range(1, 6).min(n_docs as u64) as usize };
+        let mut cuts: Vec<usize> = (0..n_seg - 1).map(|_| rng.range(1, if huge { 300 } else { n_docs as u64 - 1 }).max(1) as usize).collect();
         cuts.sort(); cuts.dedup();
-        let with_deletes = ci % 3 == 1 && n_docs >= 2;
+        let with_deletes = ci % 3 == 1 && n_docs >= 2 && !huge;
+        if huge { out.count("huge_segment_corpora", 1); }
         let mut deleted = vec![false; n_docs];
         if with_deletes {
             for i in 0..n_docs { deleted[i] = rng.chance(1, 4); }
@@ -677,12 +913,27 @@ fn main() {
         // ---- queries
         let mut queries: Vec<Q> = vec![Q::Term(0), Q::Phrase(vec![0, 1]), Q::Boost(Box::new(Q::Term(rng.below(corpus.n_terms as u64) as usize)), 3.7),
                                       Q::DisMax(vec![Q::Term(0), Q::Term(1)], 0.25)];
+        if huge {
+            let t = |i: usize| Q::Term(i);
+            queries = vec![
+                Q::DisMax(vec![t(0), t(1)], 0.25),
+                Q::DisMax(vec![Q::Boost(Box::new(t(0)), 2.0), t(1), t(2)], 0.5),
+                Q::Boost(Box::new(Q::DisMax(vec![t(0), t(1)], 0.7)), 1.0),
+                Q::Bool(vec![(Occ::Must, t(3)), (Occ::Should, Q::DisMax(vec![t(1), t(2)], 0.25))]),
+                Q::DisMax(vec![Q::Phrase(vec![0, 1]), t(2), Q::Const(Box::new(t(3)), 0.42)], 0.5),
+                Q::Bool(vec![(Occ::Should, t(0)), (Occ::Should, t(1)), (Occ::Should, t(2))]),
+            ];
+        }
         while queries.len() < n_queries { queries.push(gen_query(&mut rng, corpus.n_terms, 2)); }
         for q in &queries {
             let mut ts = vec![]; q.terms(&mut ts);
             if ts.iter().any(|t| !idf.contains_key(t)) { out.count("queries_skipped_term_absent", 1); continue; }
             let tq = q.build(field);
-            let k_all = n_docs + 5;
+            // on the huge segment a top-level dis-max goes through TopDocs with a small K only (its TopDocs path is F40:
+            // thousands of identical known cases add nothing); every document is still checked through the
+            // scoring collector (for_each -> BufferedUnionScorer) and explain
+            let full_top = !(huge && matches!(q, Q::DisMax(..)));
+            let k_all = if full_top { n_docs + 5 } else { 10 };
             let k_small = rng.range(1, 4) as usize;
             let r = guarded(|| -> tantivy::Result<_> {
                 let top_all = searcher.search(&*tq, &TopDocs::with_limit(k_all).order_by_score())?;
@@ -740,11 +991,10 @@ fn main() {
                         } else {
                             out.spec_checked(ok, json!({"what": if single { "TopDocs and the scoring collector are not bit-identical on a single scoring clause" } else { "TopDocs and the scoring collector differ by more than the rounding of the sum" }, "topdocs": s_top, "collector": s_all, "case": desc}));
                         }
-                    } else {
+                    } else if full_top {
                         out.spec_checked(false, json!({"what": "matching document missing from TopDocs(K >= number of documents)", "case": desc}));
                     }
-                    if let Some((s_small, _)) = top_small.iter().find(|(_, a)| (a.segment_ord, a.doc_id) == key) {
-                        let s_top = top_map.get(&key).cloned().unwrap_or(f32::NAN);
+                    if let (Some((s_small, _)), Some(&s_top)) = (top_small.iter().find(|(_, a)| (a.segment_ord, a.doc_id) == key), top_map.get(&key)) {
                         let ok = if single { s_small.to_bits() == s_top.to_bits() } else { ulps(*s_small, s_top) <= tol };
                         out.spec_checked(ok, json!({"what": "the score depends on K", "k_small": k_small, "small": s_small, "all": s_top, "case": desc}));
                         out.count("two_k_compared", 1);
@@ -787,9 +1037,10 @@ fn main() {
                     let mine_e = ctx.explain(q).ok().flatten();
                     out.spec_checked(mine_e.map(|x| if single { x.to_bits() == e_val.to_bits() } else { ulps(x, e_val) <= tol }).unwrap_or(false), json!({"what": "explain value differs from the independent f32 evaluation of the explain arithmetic", "impl": e_val, "want": format!("{:?}", mine_e), "case": desc}));
                     // ---- Coq cases (sample)
-                    if coq_b > 0 && !f40_hit && !f41_hit && (rng.chance(1, 3) || (single && rng.chance(1, 2))) {
+                    let take = !f40_hit && !f41_hit && if huge { coq_huge > 0 && rng.chance(1, 600) } else { coq_b > 0 && (rng.chance(1, 3) || (single && rng.chance(1, 2))) };
+                    if take {
                         if let Some(t) = fq_term(q, &ctx) {
-                            coq_b -= 1;
+                            if huge { coq_huge -= 1; out.count("huge_segment_coq_cases", 1); if *i >= 4200 { out.count("huge_segment_coq_cases_beyond_first_window", 1); } } else { coq_b -= 1; }
                             let nontrivial = built.seg_docs.len() >= 2;
                             if single {
                                 out.coq_case("tie", format!("score_bits_agree {} {} {} (Some {}) && explain_bits_agree {} {} {} (Some {})", total_tokens, total_docs, t, z(s_all.to_bits()), total_tokens, total_docs, t, z(e_val.to_bits())),
@@ -842,5 +1093,8 @@ fn main() {
         }
         let _ = &built.index;
     }
+    // ---------------- (C) several fields, conjunctions across fields ----------------
+    multi_field(&mut rng, &mut out, thorough, &table, args.seed);
+
     out.finish(json!({"tier": args.tier}));
 }
